@@ -70,6 +70,19 @@ fn norm_err(e: &str) -> String {
     out.replace(' ', "_")
 }
 
+thread_local! {
+    static KNOWN: std::collections::BTreeSet<String> = crate::features::open_known("C17");
+}
+
+/// Signature of a failure of the class `kind` (dialect + failure + normalised message): the per-case one
+/// (`kind :: subject=.. tags=..`) when it is a known finding; for the composed terms the root-cause class
+/// `kind @subject=<relation|dp-rewriting>` when that is one; else the per-case one (a new violation).
+fn class_sig(kind: String, s: &Subject) -> String {
+    let case = format!("subject={} tags={}", s.what, s.tags);
+    let feats = if s.tags.starts_with("term:") { vec![format!("subject={}", s.what)] } else { vec![] };
+    KNOWN.with(|k| crate::features::resolve(&kind, &case, &feats, k))
+}
+
 struct Subject {
     tags: String,
     sql: String,
@@ -86,7 +99,7 @@ where
     let text = match render(&s.relation, t) {
         Ok(t) => t,
         Err(p) => {
-            r.violation(format!("dialect={name} fail=render-panic {} :: {}", p.site(), case), &s.sql, json!({"query": s.sql, "subject": s.what, "panic": p.message}));
+            r.violation(class_sig(format!("dialect={name} fail=render-panic {}", p.site()), s), &s.sql, json!({"query": s.sql, "subject": s.what, "panic": p.message}));
             return;
         }
     };
@@ -94,7 +107,7 @@ where
     let q = match parse_one(&text, &d) {
         Ok(q) => q,
         Err(e) => {
-            r.violation(format!("dialect={name} fail=parse {} :: {}", norm_err(&e), case), &s.sql, json!({"query": s.sql, "subject": s.what, "rendered": text, "error": e}));
+            r.violation(class_sig(format!("dialect={name} fail=parse {}", norm_err(&e)), s), &s.sql, json!({"query": s.sql, "subject": s.what, "rendered": text, "error": e}));
             return;
         }
     };
@@ -128,14 +141,14 @@ where
         }
         Ok(Err(e)) => {
             r.violation(
-                format!("dialect={name} fail=readback-err {} :: {}", norm_err(&e.to_string()), case),
+                class_sig(format!("dialect={name} fail=readback-err {}", norm_err(&e.to_string())), s),
                 &s.sql,
                 json!({"query": s.sql, "subject": s.what, "rendered": text, "error": e.to_string().chars().take(300).collect::<String>()}),
             );
         }
         Err(p) => {
             r.violation(
-                format!("dialect={name} fail=readback-panic {} :: {}", p.site(), case),
+                class_sig(format!("dialect={name} fail=readback-panic {}", p.site()), s),
                 &s.sql,
                 json!({"query": s.sql, "subject": s.what, "rendered": text, "panic": p.message}),
             );
@@ -159,10 +172,29 @@ pub fn run(ctx: &Ctx) -> Report {
         "SELECT \"my col\" FROM (SELECT age AS \"my col\" FROM users) AS t WHERE \"my col\" > 18".to_string(),
     ];
     let mut sqls: Vec<(String, String)> = queries(ctx.tier).into_iter().map(|g| (g.sql, g.tags.join("+"))).collect();
+    // composed terms: every unary constructor over the base tables and the users/orders joins; thorough: depth 2
+    {
+        let mut seen: std::collections::BTreeSet<String> = sqls.iter().map(|x| x.0.clone()).collect();
+        let composed: Vec<crate::sqlgen2::Rel> = if ctx.tier == Tier::Quick {
+            let mut v = crate::sqlgen2::level1_unary(true);
+            v.extend(crate::sqlgen2::level1_binary().into_iter().filter(|r| r.term.ends_with("(users, orders)") || r.term.ends_with("(orders, users)")));
+            v
+        } else {
+            crate::sqlgen2::compose(2)
+        };
+        let mut picked = vec![];
+        for r in composed {
+            if seen.insert(r.sql.clone()) {
+                picked.push((r.sql.clone(), format!("term:{}", r.term.split('(').next().unwrap_or(""))));
+            }
+        }
+        // keep the three quoting subjects last (they are always included)
+        sqls.extend(picked);
+    }
     sqls.extend(extra.drain(..).map(|s| (s, "quoting".to_string())));
     let step = ctx.tier.pick(2, 1);
     for (i, (sql, tags)) in sqls.iter().enumerate() {
-        if i % step != 0 && ctx.tier == Tier::Quick && i < sqls.len() - 3 {
+        if i % step != 0 && ctx.tier == Tier::Quick && i < sqls.len() - 3 && !tags.starts_with("term:") {
             continue;
         }
         if !ctx.wants(sql) {
@@ -208,12 +240,12 @@ pub fn run(ctx: &Ctx) -> Report {
             let text = match render(&s.relation, SQLiteTranslator) {
                 Ok(t) => t,
                 Err(p) => {
-                    r.violation(format!("dialect=sqlite fail=render-panic {} :: {}", p.site(), case), &s.sql, json!({"query": s.sql, "panic": p.message}));
+                    r.violation(class_sig(format!("dialect=sqlite fail=render-panic {}", p.site()), &s), &s.sql, json!({"query": s.sql, "panic": p.message}));
                     continue;
                 }
             };
             if let Err(err) = parse_one(&text, &qrlew::dialect::SQLiteDialect {}) {
-                r.violation(format!("dialect=sqlite fail=parse {} :: {}", norm_err(&err), case), &s.sql, json!({"query": s.sql, "rendered": text, "error": err}));
+                r.violation(class_sig(format!("dialect=sqlite fail=parse {}", norm_err(&err)), &s), &s.sql, json!({"query": s.sql, "rendered": text, "error": err}));
                 continue;
             }
             r.reach("parsed_ok_by_dialect", "sqlite");
@@ -240,7 +272,7 @@ pub fn run(ctx: &Ctx) -> Report {
                     }
                     (Ok(_), Err(err)) => {
                         r.violation(
-                            format!("dialect=sqlite fail=execution {} :: {}", norm_err(&err.split(" in ").next().unwrap_or(&err).to_string()), case),
+                            class_sig(format!("dialect=sqlite fail=execution {}", norm_err(&err.split(" in ").next().unwrap_or(&err).to_string())), &s),
                             &s.sql,
                             json!({"query": s.sql, "subject": s.what, "sqlite_rendering": text.chars().take(600).collect::<String>(), "error": err.chars().take(200).collect::<String>()}),
                         );
